@@ -348,6 +348,24 @@ def e(ctx):
         if not extra:
             union |= alive
     ctx.ob("exchange removal happens exactly for ACK and RST", union == {"ACK", "RST"}, fi, calls[0][0], detail="removal for mtype in %s" % sorted(union))
+    # no earlier filter swallows the ACK/RST: evaluate dispatch_message for every (type, boundary code) with the
+    # duplicate filter reporting a hit wherever it is consulted -- an ACK or RST must still reach _remove_exchange
+    # unless it carries a request code (those are de-duplicated by design, C04)
+    from . import c10
+    from ..absdom import Interp, Sym, code_predicates, rfc_class
+    preds = code_predicates(ctx.prog)
+    swallowed = []
+    for mtype in ("ACK", "RST"):
+        for code in c10.CODES:
+            if rfc_class(code) == "request":
+                continue
+            env = {m + ".mtype": Sym(mtype), m + ".code": code, m + ".remote.is_multicast_locally": False, m + ".remote.is_multicast": False}
+            it = Interp(fi, env, [("self._deduplicate_message($x)", True), ("self._process_response($x)", False)], preds, c10.CONSTS, c10.dispatch_effect(fi, m))
+            it.run()
+            if "remove_exchange" not in it.trace:
+                swallowed.append((mtype, code, list(it.trace)))
+    ctx.ob("every incoming ACK/RST that is not a request reaches the exchange removal (no earlier filter drops it)", not swallowed, fi, calls[0][0],
+           construct="dispatch_message: ACK/RST path to _remove_exchange", detail="e.g. %s" % (swallowed[:2],) if swallowed else None)
 
 
 @R.clause("C03.f", "the give-up arm fails the remote's requests with a timeout-class NetworkError")
@@ -389,6 +407,10 @@ def f(ctx):
     all_dispatch = [cfg.loc1(call) for call, _ in calls]
     for n in sides:
         ctx.ob("when retransmissions are exhausted every normal path reports the failure", cfg.must_pass(n.id, all_dispatch), fi, n.ast)
+    # the error reaches every outstanding request of that remote (shared with C02.e: per-remote fan-out,
+    # each stopper bound to its own request, NetworkError conversion)
+    from . import c02
+    c02.e(ctx)
     # hierarchy facts
     for cls, base in (("error.ConRetransmitsExceeded", "aiocoap.error.TimeoutError"), ("error.TimeoutError", "aiocoap.error.NetworkError"), ("error.NetworkError", "aiocoap.error.Error")):
         ci = ctx.prog.cls(cls)
@@ -462,6 +484,8 @@ def h(ctx):
 
 # ---------------------------------------------------------------------------
 F_MM = "aiocoap/messagemanager.py"
+R.seed("C03.e", F_MM, "        if message.code.is_request():\n            # Responses", "        if message.code.is_request() or message.code is EMPTY:\n            # Responses", "empty ACK/RST with a recently seen message ID dropped as duplicate: retransmissions continue")
+R.seed("C03.f", "aiocoap/tokenmanager.py", "                    lambda request=request, exception=exception: request.add_exception(\n                        exception\n                    )", "                    lambda: request.add_exception(\n                        exception\n                    )", "only the last outstanding request receives the timeout")
 R.seed("C03.b", F_MM, "if retransmission_counter < message.transport_tuning.MAX_RETRANSMIT:", "if retransmission_counter <= message.transport_tuning.MAX_RETRANSMIT:", "one transmission too many")
 R.seed("C03.b", F_MM, "            timeout *= 2\n", "            timeout *= 3\n")
 R.seed("C03.b", F_MM, "            timeout *= 2\n", "            timeout += 2\n")
